@@ -41,7 +41,7 @@ index = ['# Seeded property-breaking changes', '',
 table = ['| property | changes | caught by its own check | only by another property\'s check | missed | own obligations that fired (times) | other checks that also fired |', '|---|---|---|---|---|---|---|']
 tot = collections.Counter()
 for p, s in per.items():
-    table.append(f"| {p} | {s['n']} | {s['own']} | {s['other']} | {s['missed']} | {', '.join(f'{o.split(chr(46))[1]}×{n}' if n > 1 else o.split(chr(46))[1] for o, n in sorted(s['obl'].items(), key=lambda kv: int(kv[0].split('.')[1])))} | {', '.join(f'{q}×{n}' for q, n in sorted(s['also'].items()))} |")
+    table.append(f"| {p} | {s['n']} | {s['own']} | {s['other']} | {s['missed']} | {', '.join(f'{o.split(chr(46))[1]}×{n}' if n > 1 else o.split(chr(46))[1] for o, n in sorted(s['obl'].items(), key=lambda kv: (int(__import__('re').match(r'\d+', kv[0].split('.')[1]).group()), kv[0])))} | {', '.join(f'{q}×{n}' for q, n in sorted(s['also'].items()))} |")
     for k in ('n', 'own', 'other', 'missed'):
         tot[k] += s[k]
 table.append(f"| **all** | **{tot['n']}** | **{tot['own']}** | **{tot['other']}** | **{tot['missed']}** | | |")
